@@ -82,6 +82,9 @@ class Printer:
         raise TraceAbort('cannot print node %s' % op)
 
 
+LOCAL_NAMES = set()
+
+
 def collect_items(m, stub, loc, ret):
     """ordered list of (name, E) for everything the module exposes"""
     items = []
@@ -107,7 +110,10 @@ def collect_items(m, stub, loc, ret):
     for ln in m['locals_out']:
         if loc is None or ln not in loc:
             raise TraceAbort('%s: local `%s` no longer exists' % (m['name'], ln))
+        k0 = len(items)
         add(ln, loc[ln])
+        for nm_, _ in items[k0:]:
+            LOCAL_NAMES.add((m['name'], nm_))
     if stub is not None:
         for w in dict.fromkeys(stub._writes):
             add(w, stub._vals[w])
@@ -261,7 +267,8 @@ def lean_module(m, variant_defs):
     L.append('')
     for en, d, t in merged:
         arg = ' (x : A)' if d['uses_arg'] else ''
-        L.append('@[qsc_gen] def %s (o : Ops A) (i : In A)%s : A :=\n  %s\n' % (ident(en), arg, d['body']))
+        kind = 'qsc_local' if (m['name'], d['name']) in LOCAL_NAMES else 'qsc_attr'
+        L.append('@[qsc_gen, %s] def %s (o : Ops A) (i : In A)%s : A :=\n  %s\n' % (kind, ident(en), arg, d['body']))
     L.append('end Gen.%s' % m['name'])
     lean = '\n'.join(L) + '\n'
     # runner
